@@ -118,9 +118,12 @@ def main(argv=None):
         return 3
 
     tasks = []
+    only = getattr(prop, "CASE_FILTER", {})      # optional: ident -> predicate(case); a property may use a subset of a contract's cases
     for ident in getattr(prop, "CONTRACTS", []):
         c = contract.REGISTRY[ident]
-        for i, _ in enumerate(c.cases()):
+        for i, case_ in enumerate(c.cases()):
+            if ident in only and not only[ident](case_):
+                continue
             tasks.append(("case", ident, i))
     for name in getattr(prop, "LEMMAS", []):
         tasks.append(("lemma", name))
